@@ -26,10 +26,9 @@ def outTot (net : Net) (fl : Flow) (c : Nat) : Rat :=
 /-- facts about a state/flow pair under which the stock update is exact (no clip is ever active).
     `resolveFlow` and `balanceAll` establish all of them (C02, C04). -/
 structure GoodFlow (net : Net) (x : Stock) (fl : Flow) : Prop where
-  x_nonneg : ∀ c r, 0 ≤ x c r
-  fl_nonneg : ∀ l r, 0 ≤ fl l r
+  fl_nonneg : ∀ l, l < net.nL → ∀ r, 0 ≤ fl l r
   /-- nobody is over-drawn from any row of an ordinary or timed compartment -/
-  no_overdraw : ∀ c, c < net.nC → (net.kind c = .normal ∨ net.kind c = .timed) → ∀ r, outRow net fl c r ≤ x c r
+  no_overdraw : ∀ c, c < net.nC → (net.kind c = .normal ∨ net.kind c = .timed) → ∀ r, r < net.nrows c → outRow net fl c r ≤ x c r
   /-- row 0 of a timed compartment is emptied (ordinary outflows + flush) -/
   row0_emptied : ∀ c, c < net.nC → net.kind c = .timed → outRow net fl c 0 = x c 0
   /-- time-preserving links carry nobody in row 0 -/
@@ -52,40 +51,40 @@ theorem clipneg_of_nonneg {v : Rat} (h : 0 ≤ v) : (if v < 0 then 0 else v) = v
   · rename_i hneg; exact absurd h (not_le.mpr hneg)
   · rfl
 
-theorem inAll_nonneg {fl : Flow} (hf : ∀ l r, 0 ≤ fl l r) (c : Nat) : 0 ≤ inAll net fl c := by
+theorem inAll_nonneg {fl : Flow} (hf : ∀ l, l < net.nL → ∀ r, 0 ≤ fl l r) (c : Nat) : 0 ≤ inAll net fl c := by
   unfold inAll
-  apply sumTo_nonneg; intro l _
+  apply sumTo_nonneg; intro l hl
   split
-  · exact sumTo_nonneg (fun r _ => hf l r)
+  · exact sumTo_nonneg (fun r _ => hf l hl r)
   · exact le_refl 0
 
-theorem inUntimed_nonneg {fl : Flow} (hf : ∀ l r, 0 ≤ fl l r) (c : Nat) : 0 ≤ inUntimed net fl c := by
+theorem inUntimed_nonneg {fl : Flow} (hf : ∀ l, l < net.nL → ∀ r, 0 ≤ fl l r) (c : Nat) : 0 ≤ inUntimed net fl c := by
   unfold inUntimed
-  apply sumTo_nonneg; intro l _
+  apply sumTo_nonneg; intro l hl
   split
-  · exact sumTo_nonneg (fun r _ => hf l r)
+  · exact sumTo_nonneg (fun r _ => hf l hl r)
   · exact le_refl 0
 
-theorem tlinkInto_nonneg {fl : Flow} (hf : ∀ l r, 0 ≤ fl l r) (l n r : Nat) : 0 ≤ tlinkInto net fl l n r := by
+theorem tlinkInto_nonneg {fl : Flow} (l : Nat) (hf : ∀ r, 0 ≤ fl l r) (n r : Nat) : 0 ≤ tlinkInto net fl l n r := by
   unfold tlinkInto
   simp only
   split
   · split
-    · exact hf l r
+    · exact hf r
     · exact le_refl 0
   · apply add_nonneg
     · split
-      · exact hf l r
+      · exact hf r
       · exact le_refl 0
     · split
-      · exact sumTo_nonneg (fun k _ => hf l _)
+      · exact sumTo_nonneg (fun k _ => hf _)
       · exact le_refl 0
 
-theorem inTimedRow_nonneg {fl : Flow} (hf : ∀ l r, 0 ≤ fl l r) (c r : Nat) : 0 ≤ inTimedRow net fl c r := by
+theorem inTimedRow_nonneg {fl : Flow} (hf : ∀ l, l < net.nL → ∀ r, 0 ≤ fl l r) (c r : Nat) : 0 ≤ inTimedRow net fl c r := by
   unfold inTimedRow
-  apply sumTo_nonneg; intro l _
+  apply sumTo_nonneg; intro l hl
   split
-  · exact tlinkInto_nonneg hf l _ r
+  · exact tlinkInto_nonneg l (hf l hl) _ r
   · exact le_refl 0
 
 /-- a timed link delivers exactly its total, whatever the row counts of source and destination
@@ -136,7 +135,7 @@ theorem balance_normal (hwf : wfCheck net = true) (x : Stock) (fl : Flow) (g : G
     · simp [h]
   simp only [stockTotal, hn, sumTo, zero_add, updateComps, hk, if_true]
   rw [hout]
-  have h1 := g.no_overdraw c hc (Or.inl hk) 0
+  have h1 := g.no_overdraw c hc (Or.inl hk) 0 (by omega)
   have h2 := inAll_nonneg (net := net) g.fl_nonneg c
   rw [clip0_of_nonneg (by linarith)]
 
@@ -164,18 +163,18 @@ theorem balance_timed (hwf : wfCheck net = true) (x : Stock) (fl : Flow) (g : Go
   set n := net.nrows c with hndef
   -- the pre-shift rows
   set y : Nat → Rat := fun r => x c r - outRow net fl c r + inTimedRow net fl c r with hy
-  have hy_nonneg : ∀ r, 0 ≤ y r := by
-    intro r
-    have h1 := g.no_overdraw c hc (Or.inr hk) r
+  have hy_nonneg : ∀ r, r < n → 0 ≤ y r := by
+    intro r hr
+    have h1 := g.no_overdraw c hc (Or.inr hk) r hr
     have h2 := inTimedRow_nonneg (net := net) g.fl_nonneg c r
     simp only [hy]; linarith
   set z : Nat → Rat := fun r => if n ≤ 1 then y r else if r + 1 < n then y (r + 1) else 0 with hz
-  have hz_nonneg : ∀ r, 0 ≤ z r := by
-    intro r; simp only [hz]
+  have hz_nonneg : ∀ r, r < n → 0 ≤ z r := by
+    intro r hr; simp only [hz]
     split
-    · exact hy_nonneg r
+    · exact hy_nonneg r hr
     · split
-      · exact hy_nonneg _
+      · rename_i h2; exact hy_nonneg _ h2
       · exact le_refl 0
   have hU := inUntimed_nonneg (net := net) g.fl_nonneg c
   -- the new rows, clip removed
@@ -185,7 +184,7 @@ theorem balance_timed (hwf : wfCheck net = true) (x : Stock) (fl : Flow) (g : Go
     rw [← hndef]
     simp only [hr, if_true]
     have hv : 0 ≤ z r + (if r + 1 = n then inUntimed net fl c else 0) := by
-      apply add_nonneg (hz_nonneg r)
+      apply add_nonneg (hz_nonneg r hr)
       split
       · exact hU
       · exact le_refl 0
